@@ -220,3 +220,28 @@ Example C08_former_assert_witness_accepted :
   match gen_scales (1000000, 1000, 1000) ((1%positive, 0), (1%positive, 10), (1%positive, 11)) 2 0 with
   | Ok s => (1 <=? length s)%nat | _ => false end = true.
 Proof. exact former_assert_witness_accepted. Qed.
+
+(* generate-scales-info reconciles --type / --encoding with what the input file
+   carries.  For EVERY combination (strings are arbitrary, absent or present):
+   the encoding is the command line's, else the file's, else raw; when no type
+   is given anywhere the type FOLLOWS THAT EFFECTIVE ENCODING (segmentation iff
+   compressed_segmentation, wherever the encoding came from); a
+   compressed_segmentation result never keeps uint8/uint16 and has a block
+   size; any other encoding leaves data type and block size alone. *)
+Theorem C08_set_info_params_consistent : forall ct ce it ie dt hb,
+  let r := set_info_params ct ce it ie dt hb in
+  let ty := fst (fst (fst r)) in let enc := snd (fst (fst r)) in
+  let dt' := snd (fst r) in let addblk := snd r in
+  enc = match ce with Some e => e | None => match ie with Some e => e | None => s_raw end end /\
+  (ct = None -> it = None -> ty = if bytes_eqb enc s_cseg then s_segmentation else s_image) /\
+  (bytes_eqb enc s_cseg = true ->
+     bytes_eqb dt' s_uint8 = false /\ bytes_eqb dt' s_uint16 = false /\ (hb = true \/ addblk = true)) /\
+  (bytes_eqb enc s_cseg = false -> dt' = dt /\ addblk = false).
+Proof. exact set_info_params_consistent. Qed.
+Print Assumptions C08_set_info_params_consistent.
+
+(* the inherited case: nothing on the command line, no type in the file, the
+   file's scale says compressed_segmentation, uint16 data *)
+Example C08_example_inherited_cseg :
+  set_info_params None None None (Some s_cseg) s_uint16 false = (s_segmentation, s_cseg, s_uint32, true).
+Proof. vm_compute. reflexivity. Qed.
